@@ -1157,7 +1157,7 @@ def _qnwgamma1(n, a=1.0, b=1.0, tol=3e-14):
     Economics and Finance, MIT Press, 2002.
 
     """
-    a -= 1
+    a = a - 1  # not in place: `a` may be the caller's 0-d array
 
     maxit = 25
 
